@@ -34,7 +34,7 @@ CONSTANTS N, MaxTime, MaxSkew, Budget, Variant, Faults, MaxToggle, Removal, Remo
 
 VARIABLES now, files, pr, skewU, toggles, waits, hist, emitted
 vars == <<now, files, pr, skewU, toggles, waits, hist, emitted>>
-View == <<now, files, pr, skewU, toggles, waits, emitted>>
+View == <<now, files, pr, skewU, toggles, emitted>>
 
 Procs     == 1..N
 RefreshIv == 2
@@ -58,20 +58,28 @@ InitProc(s) == [pc |-> "idle", x |-> FALSE, mine |-> NoFile, repl |-> NoFile, li
 Init ==
   /\ now = 0
   /\ \E R \in Remotes : files = R          \* lock files of holders on other hosts: [o |-> 0, t, x]
-  /\ \E sk \in [Procs -> 0..MaxSkew] : pr = [p \in Procs |-> InitProc(sk[p])]
-  /\ skewU \in 0..MaxSkew
+  /\ pr = [p \in Procs |-> InitProc(0)]       \* only clock differences matter: the processes define the reference,
+  /\ skewU \in (0 - MaxSkew)..MaxSkew         \* the observer (third party, remote judge) is off by skewU
   /\ toggles = 0
   /\ waits = 0
   /\ hist = <<>>
   /\ emitted = FALSE
+
+\* forget what cannot matter any more (keeps the state space small)
+Norm(r) ==
+  IF r.pc \in Terminal THEN [InitProc(0) EXCEPT !.pc = r.pc]
+  ELSE LET r1 == IF r.pc \in OpStates THEN r ELSE [r EXCEPT !.since = 0]
+       IN  IF r1.pc \in HoldStates \cup {"unl"}
+           THEN [r1 EXCEPT !.tries = 0, !.att = 0, !.phase = 1, !.checked = {}, !.listed = {}]
+           ELSE [r1 EXCEPT !.lastRef = 0, !.monRef = 0, !.nextRef = 0]
 
 H(op, p, x, k) == [op |-> op, p |-> p, x |-> x, k |-> k]
 Rec(h) == hist' = IF Emit THEN Append(hist, h) ELSE hist
 
 \* process p moves to record r (a backend operation ends a stall) and the schedule gets one more entry
 Move(p, r, h) ==
-  /\ pr' = [pr EXCEPT ![p] = [r EXCEPT !.since = now,
-                                       !.used = IF pr[p].pc \in OpStates THEN @ + (now - pr[p].since) ELSE @]]
+  /\ pr' = [pr EXCEPT ![p] = Norm([r EXCEPT !.since = now,
+                                            !.used = IF pr[p].pc \in OpStates THEN @ + (now - pr[p].since) ELSE @])]
   /\ Rec(h)
   /\ UNCHANGED <<now, skewU, toggles, waits, emitted>>
 
@@ -146,7 +154,7 @@ Again(p) ==
         /\ pr' = [pr EXCEPT ![p] = [r EXCEPT !.pc = "list", !.phase = 1, !.ts = Local(p), !.tries = 0, !.att = @ + 1,
                                              !.checked = {}, !.since = now]]
      \/ /\ (r.att >= 2 \/ r.att >= MaxAtt)
-        /\ pr' = [pr EXCEPT ![p] = [r EXCEPT !.pc = "failed"]]
+        /\ pr' = [pr EXCEPT ![p] = Norm([r EXCEPT !.pc = "failed"])]
   /\ UNCHANGED <<now, skewU, toggles, waits, hist, emitted>>
 
 ---------------------------------------------------------------------------
@@ -232,14 +240,14 @@ Unl(p) ==
 
 Unlock(p) ==
   LET r == pr[p] IN
-  /\ r.pc \in {"hold", "stuck", "rsave", "rrm"} /\ r.ctx
+  /\ r.pc \in {"hold", "stuck", "rrm"} /\ r.ctx
   /\ UNCHANGED files
   /\ Move(p, [r EXCEPT !.ctx = FALSE, !.forcing = FALSE, !.pc = IF r.pc \in {"hold", "stuck"} THEN "unl" ELSE r.pc],
           H("unlock", p, FALSE, ""))
 
 Crash(p) ==
   /\ Crashes
-  /\ pr[p].pc \notin Terminal \cup {"idle"}
+  /\ pr[p].pc \in {"sleep", "hold", "rrm", "list"}     \* with 0, 1 or 2 lock files left behind
   /\ UNCHANGED files
   /\ Move(p, [pr[p] EXCEPT !.pc = "dead", !.ctx = FALSE], H("crash", p, FALSE, ""))
 
@@ -301,7 +309,7 @@ Fire(r, lp, tn) ==
 Wait ==
   /\ waits < MaxWaits
   /\ \E p \in Procs : TimerDue(pr[p], Local(p))
-  /\ pr' = [p \in Procs |-> Fire(pr[p], Local(p), now)]
+  /\ pr' = [p \in Procs |-> Norm(Fire(pr[p], Local(p), now))]
   /\ waits' = waits + 1
   /\ Rec(H("wait", 0, FALSE, ""))
   /\ UNCHANGED <<now, files, skewU, toggles, emitted>>
@@ -313,7 +321,7 @@ Tick ==
   /\ \A p \in Procs : StallOk(pr[p]) /\ ~RefreshDue(pr[p], Local(p)) /\ ~MonitorDue(pr[p], Local(p))
   /\ now' = now + 1
   /\ waits' = 0
-  /\ pr' = [p \in Procs |-> IF Sleeping(pr[p]) THEN Fire(pr[p], Local(p) + 1, now + 1) ELSE pr[p]]
+  /\ pr' = [p \in Procs |-> IF Sleeping(pr[p]) THEN Norm(Fire(pr[p], Local(p) + 1, now + 1)) ELSE pr[p]]
   /\ Rec(H("tick", 0, FALSE, ""))
   /\ UNCHANGED <<files, skewU, toggles, emitted>>
 
@@ -363,7 +371,7 @@ InvFresh         == FreshWhileActive(ObsOf)
 \* nobody whose clock agrees within MaxSkew can judge the lock of an active holder stale
 InvNotStale ==
   \A p \in Procs : (Believes(p) /\ pr[p].ctx /\ ~pr[p].robbed) =>
-      \E f \in files : f.o = p /\ \A s \in 0..MaxSkew : (now + s) - f.t <= STALE
+      \E f \in files : f.o = p /\ \A s \in (0 - MaxSkew)..MaxSkew : (now + s) - f.t <= STALE
 
 TypeOK == now \in 0..MaxTime /\ \A p \in Procs : pr[p].used <= Budget
 =============================================================================
